@@ -21,8 +21,7 @@
    effective degree <-> compact effective degree <-> EBCM (multinomial change
    of variables), prefmix_uncorrelated (2-D / dict-based code, not translated),
    the heterogeneous pairwise, pair-based and individual-based reductions (2-D
-   and node-level systems, not translated), the SIR heterogeneous mean-field
-   reduction, and the matching of the wrappers' initial conditions. *)
+   and node-level systems, not translated), and the matching of the wrappers' initial conditions. *)
 From EoNV Require Import Prelude Vec VecP Aux Rhs Rhs7P.
 
 (* ---- regular graphs: single degree class k, Phi o rhs_big = rhs_small o Phi ---- *)
@@ -52,6 +51,21 @@ Theorem C07_lump_SIR_compact_pairwise_regular : forall t tau g k s SS SI R N,
   veq big (unitv k (vnth 0 small) ++ [vnth 3 small; vnth 2 small; g * (N - s - R)]) /\
   vnth 1 small == - vnth 0 small - g * (N - s - R).
 Proof. exact lump_SIR_compact_pairwise_regular. Qed.
+
+(* heterogeneous mean-field SIR (state theta, R_k; S_k = S0_k theta^k) on a single class k against
+   homogeneous mean-field SIR (state S, I) with n/N = k/N, S = s0 theta^k, I = N - S - r:
+   k s0 theta^(k-1) theta' = dS (the left side is d/dt of s0 theta^k by the chain rule, taken as
+   given: _partial), dR_k = gamma I, and dI = -dS - dR *)
+Theorem C07_lump_SIR_heterogeneous_meanfield_regular_partial : forall t tau g k theta r s0 N,
+  ~ Qnat k == 0 -> ~ N == 0 -> ~ theta == 0 ->
+  let S := s0 * qpow theta (Z.of_nat k) in
+  let I := N - S - r in
+  let small := dSIR_homogeneous_meanfield [S; I] t (Qnat k / N) tau g in
+  let big := dSIR_heterogeneous_meanfield ([theta] ++ unitv k r) t (unitv k s0) (unitv k N) tau g in
+  Qnat k * s0 * qpow theta (Z.of_nat k - 1) * vnth 0 big == vnth 0 small /\
+  veq (slice_from 1 big) (unitv k (g * I)) /\
+  vnth 1 small == - vnth 0 small - g * I.
+Proof. exact lump_SIR_heterogeneous_meanfield_regular_partial. Qed.
 
 (* ---- SIR hierarchy ---- *)
 (* EBCM -> super-compact pairwise, SS = N psihat'(theta) phi_S, SI = N psihat'(theta) phi_I with
@@ -109,6 +123,7 @@ Proof. cbv zeta. repeat split; try (vm_compute; reflexivity). intro H; vm_comput
 Print Assumptions C07_lump_SIS_heterogeneous_meanfield_regular.
 Print Assumptions C07_lump_SIS_compact_pairwise_regular.
 Print Assumptions C07_lump_SIR_compact_pairwise_regular.
+Print Assumptions C07_lump_SIR_heterogeneous_meanfield_regular_partial.
 Print Assumptions C07_ebcm_to_super_compact_partial.
 Print Assumptions C07_compact_to_super_compact_partial.
 Print Assumptions C07_nonvacuous_lump.
